@@ -2,6 +2,7 @@ package main
 
 import (
 	"fmt"
+	"sort"
 	"strconv"
 	"time"
 
@@ -221,6 +222,46 @@ func emitDataset(out *Out, r *Rng, hs HSpec) {
 		}
 		if nv != len(ents) {
 			why = append(why, fmt.Sprintf("%d literal/IRI quads but %d entries", nv, len(ents)))
+		}
+		// sibling positions: the literal/IRI values of one (subject, predicate, graph) carry no position when there is a single
+		// quad of that key in the graph, and otherwise exactly 0 .. n-1 in quad order (entries come out in quad order, graph by graph)
+		if nv == len(ents) {
+			gnames := make([]string, 0, len(ds.Graphs))
+			for g := range ds.Graphs {
+				gnames = append(gnames, g)
+			}
+			sort.Strings(gnames)
+			ei := 0
+			for _, g := range gnames {
+				qs := ds.Graphs[g]
+				cnt := map[string]int{}
+				for _, q := range qs {
+					cnt[fmt.Sprint(nodeJ(q.Subject))+"|"+q.Predicate.GetValue()]++
+				}
+				seen := map[string]int{}
+				for _, q := range qs {
+					if _, isB := q.Object.(*ld.BlankNode); isB {
+						continue
+					}
+					k := fmt.Sprint(nodeJ(q.Subject)) + "|" + q.Predicate.GetValue()
+					parts := ents[ei].VerifKeyParts()
+					ei++
+					if len(parts) == 0 {
+						continue
+					}
+					last := parts[len(parts)-1]
+					if cnt[k] == 1 {
+						if _, isInt := last.(int); isInt && len(why) < 4 {
+							why = append(why, fmt.Sprintf("the only value of %s carries a position: key %v", k, parts))
+						}
+					} else {
+						if n, isInt := last.(int); (!isInt || n != seen[k]) && len(why) < 4 {
+							why = append(why, fmt.Sprintf("value number %d of %s has the key %v: positions of siblings must be exactly 0..n-1 in order", seen[k], k, parts))
+						}
+						seen[k]++
+					}
+				}
+			}
 		}
 		// a subject referenced from two places must have been rejected
 		if s := multiReferenced(ds); s != "" {
